@@ -264,7 +264,14 @@ Definition subst_case (context : ctx) (re : list (binding * ident)) (lc : N) (r 
   | L [A "PANIC"; Q msg] =>
       match m with
       | Err _ => VOk "panic-agree"
-      | Ok (mc, _) => VDiff (show (s_codes mc)) (show r)
+      | Ok (mc, _) =>
+          (* the model produces code (enough temporaries, all sources bound): a panic or a crash of
+             the code generator on such a substitution violates the property outright *)
+          match sources context re with
+          | Some srcs => VViol ("class=subst-crash the code generator failed with " ++ show r ++ " where the model emits "
+                                ++ n_to_string (N.of_nat (List.length mc)) ++ " instructions;" ++ describe context srcs)
+          | None => VDiff (show (s_codes mc)) (show r)
+          end
       end
   | _ =>
       match sb_read SB r, sources context re with
